@@ -58,9 +58,9 @@ type round struct {
 // reading of the protocol: bitmask / reply, CLAIMTOBE claim+ack, FS path +
 // client result + server result, hasKey message after a success).
 func walk(tap *peer.Tap) (cad, sad map[string]string, rounds []round, ok bool) {
-	cf, _ := peer.ParseFrames(tap.Bytes(true))
-	sf, _ := peer.ParseFrames(tap.Bytes(false))
-	cm, sm := peer.Messages(cf), peer.Messages(sf)
+	msgs, pos := tap.OrderedMessages()
+	cm, sm := msgs[0], msgs[1]
+	cpos, spos := pos[0], pos[1]
 	if len(cm) == 0 || len(sm) == 0 {
 		return nil, nil, nil, false
 	}
@@ -113,6 +113,19 @@ func walk(tap *peer.Tap) (cad, sad map[string]string, rounds []round, ok bool) {
 				rd.Res = "fail"
 				if cres == 0 && sres == 0 {
 					rd.Res = "ok"
+				}
+			} else {
+				rd.Res = "abort"
+			}
+		case 2048: // TOKEN (AKEP2): client step 1, server step 2, client step 3; after a success the
+			// server's key-exchange message comes next, after a failure the client's next bitmask
+			if ci+1 < len(cm) && si < len(sm) {
+				ci += 2
+				si++
+				rd.Res = "fail"
+				if si < len(sm) && (ci >= len(cm) || spos[si] < cpos[ci]) {
+					rd.Res = "ok"
+					si++
 				}
 			} else {
 				rd.Res = "abort"
@@ -234,7 +247,7 @@ func genHonestPairs(c *core.Ctx, bt *batcher) {
 			}
 			masks = append(masks, fmt.Sprintf("(mkM %s %s)", core.Z(r.Mask), xres(r.Res)))
 			replies = append(replies, fmt.Sprintf("(mkReply %s %s %s)", core.Z(r.Reply), xres(r.Res), core.Bool(r.Res == "ok")))
-			name := map[int64]string{2: "CLAIMTOBE", 4: "FS"}[r.Reply]
+			name := map[int64]string{2: "CLAIMTOBE", 4: "FS", 2048: "TOKEN"}[r.Reply]
 			if name != "" && (r.Res == "ok" || r.Res == "fail") {
 				ran = append(ran, peer.Exchange{Method: name, OK: r.Res == "ok"})
 			}
